@@ -176,6 +176,49 @@ def c_recompile(ctx, args):
     return None
 
 
+def c_respecify(ctx, args):
+    """a gate whose data is given AGAIN after it was used or compiled -- set_generator after compile(), set_generator after set_forward_map, set_forward_map twice -- acts by what it
+    was told LAST: run gate by gate it equals a fresh gate with the last specification, and compiling again agrees with that (both directions)"""
+    N, qs, g_old, g_new, l, how, be = args
+    if be == 'np':
+        from pyclifford import circuit as CIn
+        M, CI_ = NP, CIn
+    else:
+        import vlib.impl_torch as TT, torchclifford.circuit as CIt
+        M, CI_ = TT, CIt
+    k = len(qs)
+    gate = CI_.CliffordGate(*qs)
+    try:
+        if how == 'compile_then_generator':
+            gate.set_generator(M.P(g_old))
+            gate.compile()
+            gate.set_generator(M.P(g_new))
+        elif how == 'use_then_generator':
+            gate.set_generator(M.P(g_old))
+            gate.forward(M.PL(l))
+            gate.backward(M.PL(l))
+            gate.set_generator(M.P(g_new))
+        else:                     # 'generator_twice'
+            gate.set_generator(M.P(g_old))
+            gate.set_generator(M.P(g_new))
+        fresh = CI_.CliffordGate(*qs)
+        fresh.set_generator(M.P(g_new))
+        for direction in ('forward', 'backward'):
+            a, b = M.PL(l), M.PL(l)
+            getattr(gate, direction)(a)
+            getattr(fresh, direction)(b)
+            if M.oPL(a) != M.oPL(b):
+                return {'kind': 'oracle', 'where': '%s:a gate re-specified (%s) does not act by its last specification (%s)' % (be, how, direction), 'observed': M.oPL(a), 'expected': M.oPL(b), 'tags': ['respecify', how]}
+        gate.compile()
+        fresh.compile()
+        for nm in ('forward_map', 'backward_map'):
+            if M.oPL(getattr(gate, nm)) != M.oPL(getattr(fresh, nm)):
+                return {'kind': 'oracle', 'where': '%s:a gate re-specified (%s) and compiled again has a stale %s' % (be, how, nm), 'observed': M.oPL(getattr(gate, nm)), 'expected': M.oPL(getattr(fresh, nm)), 'tags': ['respecify', how]}
+    except Exception as e:
+        return {'kind': 'oracle', 'where': '%s:re-specified gate (%s) raised %s' % (be, how, type(e).__name__), 'observed': str(e)[:120], 'expected': 'the action of the last specification', 'tags': ['respecify', how]}
+    return None
+
+
 def c_copy_extend(ctx, args):
     """copy a circuit, extend the COPY by further gates (some far from the last layers, so that they slide down the layer chain), then run both:
     the copy acts as base+extra, the original still as base (oracle: the gates one at a time)"""
@@ -264,7 +307,7 @@ def c_torch_prog(ctx, args):
     return None
 
 
-CHECKS = {'torch_prog': c_torch_prog, 'copy_extend': c_copy_extend, 'reuse': c_reuse, 'recompile': c_recompile, 'prog_corr': c_prog_corr, 'prog_seq': c_prog_seq, 'gate_corr': c_gate_corr, 'local': c_local}
+CHECKS = {'respecify': c_respecify, 'torch_prog': c_torch_prog, 'copy_extend': c_copy_extend, 'reuse': c_reuse, 'recompile': c_recompile, 'prog_corr': c_prog_corr, 'prog_seq': c_prog_seq, 'gate_corr': c_gate_corr, 'local': c_local}
 
 
 def run(ctx):
@@ -283,6 +326,13 @@ def run(ctx):
     # history corpus: compile, add a gate that slides into an already compiled layer, compile again
     do(ctx, 'recompile', ['CliffordCircuit', 3, [[0, [[0], [0, [[1, 0], 0]]]]], [[0, [[2], [0, [[1, 1], 0]]]]], [[[0, 0, 0, 0, 1, 0], 2], [[0, 1, 0, 0, 0, 1], 1]], 2, 'take', 'forward'], nontrivial='rc0', sample=True)
     ctx.res.exhaustive = True
+    for it in range(int(45 * B)):
+        N = rng.randint(1, 4)
+        k = rng.randint(1, N)
+        qs = sorted(rng.sample(range(N), k))
+        full = lambda: [[b for i in range(k) for b in rng.choice([(1, 0), (0, 1), (1, 1)])], rng.choice([0, 2])]
+        do(ctx, 'respecify', [N, qs, full(), full(), gen.rplist(rng, N, 4), ['compile_then_generator', 'use_then_generator', 'generator_twice'][it % 3], ['np', 'np', 'torch'][it % 3 if it % 2 else 0]],
+           nontrivial=('rs', it))
     # registers beyond one machine word, gates on the qubits next to the word boundaries (overlaps that a packed support would not see)
     for N in (65, 66, 130):
         pool = gen.edge_pool(N)
